@@ -350,12 +350,95 @@ Proof.
     + intros Hc. rewrite (P2 Hc). reflexivity.
     + intros Hk Ht Hb c2 k2 t2 H2. cbn [c_accumulate] in H2.
       destruct (dyn_accumulate d1 b) as [[d2 n2] tt2] eqn:E2. inversion H2; subst c2 k2 t2.
-      rewrite (P3 Hk Ht Hb d2 n2 tt2 E2). reflexivity.
+      rewrite (P3 Hk Ht Hb d2 n2 tt2 eq_refl). reflexivity.
   - destruct (huf_accumulate h a) as [[d1 n1] tt1] eqn:E. inversion H; subst c1 k1 t1. clear H.
     destruct (huf_acc_split h a b Ha d1 n1 tt1 E) as (P1 & P2 & P3).
     split; [exact P1|]. split.
     + intros Hc. rewrite (P2 Hc). reflexivity.
     + intros Hk Ht Hb c2 k2 t2 H2. cbn [c_accumulate] in H2.
       destruct (huf_accumulate d1 b) as [[d2 n2] tt2] eqn:E2. inversion H2; subst c2 k2 t2.
-      rewrite (P3 Hk Ht Hb d2 n2 tt2 E2). reflexivity.
+      rewrite (P3 Hk Ht Hb d2 n2 tt2 eq_refl). reflexivity.
+Qed.
+
+(* ------------------------------------------------------------------ *)
+(* facts about the match finder needed for progress                     *)
+
+Lemma tlen_ge : forall W ts b, toks_ok W b ts -> lenN ts <= tlen ts.
+Proof.
+  intros W. induction ts as [|t r IH]; intros b H.
+  - cbn [tlen]. rewrite lenN_nil. lia.
+  - cbn [toks_ok] in H. destruct H as (Ht & Hr). rewrite lenN_cons. cbn [tlen].
+    specialize (IH _ Hr). destruct t as [x|len dist]; cbn [tok_len tok_ok] in *; lia.
+Qed.
+
+Lemma lz77_facts : forall flush mask W input processed offset table toks ntok maxToken,
+  offset <= lenN input ->
+  forall r, r = lz77 flush mask W input processed offset table toks ntok maxToken ->
+  lz_oob r = false ->
+  offset <= lz_off r /\ lz_off r <= lenN input /\ ntok <= lz_ntok r /\
+  lz_ntok r - ntok <= lz_off r - offset.
+Proof.
+  intros flush mask W input processed offset table toks ntok maxToken Hoff r Hr Hoob.
+  unfold lz77 in Hr.
+  destruct (lz_loop_ok flush W input (lenN input - 8) mask (processed - offset) maxToken
+              (skipn (N.to_nat offset) input) offset O table toks ntok eq_refl
+              ltac:(change (N.of_nat 0) with 0; lia) r Hr Hoob)
+    as (new & adv & I1 & I2 & I3 & I4 & I5).
+  change (N.of_nat 0) with 0 in *. rewrite N.add_0_r in *.
+  destruct I3 as (G1 & G2 & G3 & G4).
+  pose proof (tlen_ge _ _ _ G3) as HT. unfold lenN in HT. rewrite rev_length in HT.
+  unfold lenN in *. lia.
+Qed.
+
+(* without flush the match finder stops only at the token limit or 8 bytes before the end *)
+Lemma lz_loop_nonflush : forall W input e mask rel maxToken l offset skip table toks ntok,
+  l = skipn (N.to_nat offset) input ->
+  offset + N.of_nat skip <= lenN input ->
+  forall r, r = lz_loop false (arr_of_list input) (lenN input) e mask W rel maxToken
+                        l offset skip table toks ntok false ->
+  lz_oob r = false ->
+  maxToken < lz_ntok r \/ e <= lz_off r \/ lz_off r = lenN input.
+Proof.
+  intros W input e mask rel maxToken.
+  induction l as [|b l' IH]; intros offset skip table toks ntok Hl Hlen r Hr Hoob.
+  - cbn [lz_loop] in Hr. symmetry in Hl. apply skipn_nil_len in Hl.
+    subst r. cbn [lz_off]. right. right. unfold lenN in *. lia.
+  - pose proof Hl as Hl0. symmetry in Hl. apply skipn_cons_nth in Hl. destruct Hl as (Hlt & Hb & Hl').
+    assert (Hl'' : l' = skipn (N.to_nat (offset + 1)) input).
+    { rewrite Hl'. f_equal. lia. }
+    cbn [lz_loop] in Hr. destruct skip as [|k].
+    + change (N.of_nat 0) with 0 in *. rewrite N.add_0_r in *.
+      destruct (offset <? e) eqn:Ee.
+      * remember (lz_step (arr_of_list input) e mask W rel offset (b :: l') table ntok maxToken)
+          as sr eqn:Hsr.
+        destruct (sr_oob sr) eqn:Esro.
+        { exfalso. cbn [orb] in Hr. destruct (sr_stop sr).
+          - subst r. discriminate Hoob.
+          - subst r. rewrite lz_loop_oob_true in Hoob. discriminate Hoob. }
+        cbn [orb] in Hr. rewrite Hl0 in Hsr.
+        destruct (lz_step_ok W input e mask rel offset table ntok maxToken
+                    ltac:(unfold lenN; lia) sr Hsr Esro) as (SG & SA & SS).
+        destruct (sr_stop sr) eqn:Estop.
+        -- left. subst r. cbn [lz_ntok]. apply SS. reflexivity.
+        -- destruct SG as (SG1 & SG2).
+           apply (IH (offset + 1) (N.to_nat (sr_adv sr) - 1)%nat (sr_table sr)
+                     (sr_toks sr ++ toks) (ntok + lenN (sr_toks sr)) Hl'' ltac:(lia) r Hr Hoob).
+      * right. left. subst r. cbn [lz_off]. lia.
+    + apply (IH (offset + 1) k table toks ntok Hl'' ltac:(lia) r Hr Hoob).
+Qed.
+
+Lemma lz77_nonflush : forall mask W input processed offset table toks ntok maxToken,
+  offset <= lenN input ->
+  forall r, r = lz77 false mask W input processed offset table toks ntok maxToken ->
+  lz_oob r = false ->
+  maxToken < lz_ntok r \/ lenN input - 8 <= lz_off r.
+Proof.
+  intros mask W input processed offset table toks ntok maxToken Hoff r Hr Hoob.
+  unfold lz77 in Hr.
+  destruct (lz_loop_nonflush W input (lenN input - 8) mask (processed - offset) maxToken
+              (skipn (N.to_nat offset) input) offset O table toks ntok eq_refl
+              ltac:(change (N.of_nat 0) with 0; lia) r Hr Hoob) as [H|[H|H]].
+  - left. exact H.
+  - right. exact H.
+  - right. lia.
 Qed.
